@@ -41,7 +41,7 @@ fn witness_checks<S: Src>(s: &mut S, g: &GhostV, v: u16, hand: &Five) {
 pub fn six_witness<S: Src>(s: &mut S) {
     let (cards, w6) = draw_cards::<S, 6>(s);
     assume!(s, all_distinct(&w6));
-    let g = GhostV::install(cards, 6);
+    let g = GhostV::install_any(cards, 6);
     let (v, hand) = Six::from(w6).hand_rank_value_and_hand();
     witness_checks(s, &g, v, &hand);
 }
@@ -50,7 +50,7 @@ pub fn six_witness<S: Src>(s: &mut S) {
 pub fn seven_witness<S: Src>(s: &mut S) {
     let (cards, w7) = draw_cards::<S, 7>(s);
     assume!(s, all_distinct(&w7));
-    let g = GhostV::install(cards, 7);
+    let g = GhostV::install_any(cards, 7);
     let (v, hand) = Seven::from(w7).hand_rank_value_and_hand();
     witness_checks(s, &g, v, &hand);
 }
